@@ -1,14 +1,54 @@
 """Claims table for MANIFEST.json (bin/mkmanifest)."""
-TB = "Trusted: clang 14 front end/constant folder/CFG builder, the extractor (engine/mifacts.cc), the Python path and dataflow algorithms, the frozen rule tables (each exception one named symbol with a reason). "
-CLAUSE = ("Decides, for all inputs/schedules at once, the listed code-shaped NECESSARY conditions of the property on every CFG path of the "
-          "functions that implement it; it does not decide the behavioural whole (see the 'Not decided' paragraph of the DESIGN section). ")
+TB = ("Trusted: clang 14 front end/constant folder/CFG builder, the extractor (engine/mifacts.cc), the Python path and dataflow algorithms (lib/), "
+      "the frozen rule tables in rules/ (each exception one named symbol with a reason). ")
+CLAUSE = ("Static analysis. Decides, for all inputs/schedules at once, the listed code-shaped NECESSARY conditions of the property on every CFG path of the "
+          "functions that implement it (a violated condition breaks the behaviour); it does not decide the behavioural whole — see 'Not decided' in the DESIGN section. ")
+
+
+def C(level, technique, decided, note=""):
+    return dict(level=level, technique="static analysis: " + technique, text=CLAUSE + decided, note=TB + note)
+
+
 CLAIMS = {
- "C11": dict(level="other", technique="static analysis: def-use writer/reader agreement + must-pass-through over CFG and call graph",
-             text=CLAUSE + "C11: writer/reader agreement on memid.mem.os.{base,size}, no dropped pure size computation, provenance of the size reaching munmap, "
-                  "must-pass release chain segment->arena->OS->munmap, thread-data cache. RSS across repetitions is a run-time quantity and is not decided.",
-             note=TB + "Assumes munmap(2) releases what it is given."),
+ "C04": C("other", "interprocedural constant-flag flow + must-pass-through + symbolic range bounds",
+          "C04: the constant zero flag reaches the zeroing primitive (or a verified zero-afterwards memzero over the usable size) from all 27 zero-family entry points on every returning path; "
+          "the primitive zeroes block_size not the request; page zero-flag stores; the moving re-allocation zeroes [<= old usable, new usable).",
+          "Assumes memory reported zero by the OS/arena is zero."),
+ "C05": C("other", "must-pass-through / guarded-by over the realloc bodies + call-graph effects",
+          "C05: copy length is exactly min(old usable, newsize); mi_free(p) only after newp != NULL, once, never before returning p/NULL; guards of the in-place return; alignment "
+          "provenance of every return of the aligned re-allocation; mi_expand is effect-free; reallocf frees exactly on failure.",
+          "Byte equality of copied contents is a run-time fact and not decided."),
+ "C07": C("other", "result-discipline over all call sites of a frozen fallible set + NULL-dominance + failure-edge must-pass",
+          "C07: no OS/arena/segment/page failure result dropped (98 live call sites, exception table), no unchecked dereference of a fallible pointer result, commit state only after success "
+          "and undone on failure, partially built objects released, retry-once-then-ENOMEM slow path, full commit mask for huge segments.",
+          "Does not enumerate fault positions; kernel behaviour assumed as documented."),
+ "C09": C("other", "ordering (must-pass), never-after-publication, guarded adoption over CFG + call graph",
+          "C09: thread-exit path shape, abandon order, nothing touched after a segment is published as abandoned, reclaim only after the atomic un-abandon (and sub-process check), "
+          "only heaps that may reclaim adopt pages, empty abandoned segments are released, forced-abandon pairing.",
+          "Exclusivity of adoption over interleavings is a schedule property and not decided."),
+ "C10": C("other", "guarded-by / ordering / who-may-call over heap delete, absorb, destroy",
+          "C10: delete absorbs only into a compatible backing heap else abandons, unlink and reset default before mi_free(heap) as last access; absorb order; destroy only on no_reclaim "
+          "and only the heap's own pages; no foreign page enters a destroyable heap; ownership queries; _mi_page_abandon callers (known finding F9 listed).",
+          "In-flight remote frees during delete are a schedule property and not decided."),
+ "C11": C("other", "def-use writer/reader agreement + must-pass-through over CFG and call graph",
+          "C11: writer/reader agreement on memid.mem.os.{base,size}, no dropped pure size computation on the release chain, provenance of the size reaching munmap, must-pass release chain "
+          "segment->arena->OS->munmap, thread-data cache, forced-collect reachability.",
+          "Assumes munmap(2) releases what it is given; RSS over repetitions is a run-time quantity and not decided."),
+ "C15": C("other", "guarded-by analysis of every hand-over site + DNF of the suitability predicate + def-use of trimming",
+          "C15: a suitability test bound to the requesting heap's arena id guards every hand-over of spans/abandoned segments/arena blocks; no OS fallback or fresh arena for a bound request; "
+          "cursor restriction; suitability predicate DNF; managed regions trimmed inwards; arena-incompatible heaps are not merged."),
+ "C18": C("other", "edge-fact orientation agreement across sibling functions + reachability with constant arguments",
+          "C18: the three purge drivers agree that a purge is skipped exactly while the expiry lies in the future; force=false purge attempts are reached from page free, page alloc, arena free and "
+          "normal collect; delay<0 / ==0 / >0 regimes; decommit-or-reset selection.",
+          "Wall-clock timing is not decided."),
+ "C20": C("other", "table checks on folded initialisers + upper-bound dataflow (abstract interpretation) + cursor/limit dominance",
+          "C20: option table rows match their enumerators and fit the lookup buffer; every bounded-writer call has a constant size <= its array; every fixed-array subscript in options/stats/libc "
+          "code has a proven upper bound; primitive writers store only under p<end; parser saturates and leaves defaults on malformed input; keywords matched by whole-token equality; "
+          "options[] indexed only after a range check.",
+          "libc's strtol/getenv trusted; mi_out_num's in-place digit reversal not decided."),
 }
 NOT_APPLICABLE = {}
-NOTES = ("All checks are static: they parse /repo's current sources with the real build's flags on every run and never execute mimalloc. "
+NOTES = ("All checks are static: they parse /repo's current sources with the real build's flags on every run (cmake+ninja compdb -> libTooling extractor) and never execute mimalloc. "
          "exit 2 (ANALYSIS-BROKEN) means an anchor vanished or a rule matched fewer instances than confirmed by hand; it is neither a pass nor a violation. "
-         "Genuine defects found on the pinned tree are recorded in /verif/known_findings.json (fixed: entries for the nine 'fix:' commits; one known finding F9).")
+         "Genuine defects found on the pinned tree are recorded in /verif/known_findings.json (fixed: entries for the nine 'fix:' commits; one known finding F9). "
+         "quick = release configuration; thorough = release + MI_SECURE=4 + MI_DEBUG=3 configurations (cross-configuration agreement).")
